@@ -42,7 +42,7 @@ PROPS = {
     "C11": ("schedwalk", 16, 600, 3600),
     "C06": ("netwalk", 16, 900, 3600),
     "C07": ("netwalk", 16, 600, 3600),
-    "C18": ("netwalk", 9, 600, 3600),
+    "C18": ("netwalk", 16, 600, 3600),
     "C19": ("domwalk", 16, 300, 7200),
     "C20": ("domwalk", 8, 300, 600),
     "C14": ("domwalk", 16, 600, 3600),
